@@ -40,7 +40,9 @@ impl Dependencies for Declaration {
             Self::ReturnStatement(return_statement) => return_statement.supplies(),
             Self::IfStatement(if_statement) => if_statement.supplies(),
             Self::WhileLoop(while_loop) => while_loop.supplies(),
-            Self::NumberLoop(number_loop) => number_loop.supplies(),
+            // the counter of a loop lives in the loop (which cancels it for its own body): the statements
+            // after the loop see the variable they saw before it
+            Self::NumberLoop(_) => vec![],
             Self::Assertion(assertion) => assertion.supplies(),
             Self::Class(class) => class.supplies(),
             Self::Value(value) => value.supplies(),
